@@ -11,6 +11,9 @@ representation = a direct subclass of gfpx.Polynomial with p = 2) and compared w
 each other.
 """
 
+import json
+import signal
+
 from mc.core import Part
 from mc.ref import polys as R
 
@@ -47,6 +50,77 @@ MANIFEST = dict(
     note='trusted: the schoolbook reference (self-checking against the laws); finite declared domain; large primes only '
          'through the boundary alphabet; powmod/invert/mod/divmod with zero modulus only checked where an error is raised by '
          'design (divmod, //, %, invert).')
+
+
+# -- harness helpers: deterministic examples, hang guard -----------------------------------
+
+class CPart(Part):
+    """Part that also remembers, per violation key, the smallest failing example (so that the reported
+    example does not depend on the order in which worker processes finish)."""
+
+    def violation(self, key, what, detail):
+        super().violation(key, what, detail)
+        size = sum(len(v) for v in detail.values() if isinstance(v, list)) + abs(detail.get('n', 0) if isinstance(detail.get('n', 0), int) else 0)
+        rank = [detail.get('p', 0), size, json.dumps(detail, sort_keys=True, default=str)]
+        ex = self.notes.setdefault('examples', [])
+        for e in ex:
+            if e[0] == key:
+                if rank < e[1]:
+                    e[1:] = [rank, what, detail]
+                return
+        ex.append([key, rank, what, detail])
+
+
+def coverage_extra(tier, seed, total):
+    best = {}
+    for key, rank, what, detail in total.notes.pop('examples', []):
+        if key not in best or rank < best[key][0]:
+            best[key] = (rank, what, detail)
+    for v in total.violations:
+        if v['key'] in best:
+            _, v['what'], v['detail'] = best[v['key']]
+    return {}
+
+
+class Hang(Exception):
+    """Raised inside a call of the code under test that used more than one full watchdog period of CPU time."""
+
+
+class Abort(BaseException):
+    pass
+
+
+_wd = {'id': 0, 'on': False, 'seen': -1, 'hangs': 0}
+WD_PERIOD = 4.0     # seconds of CPU time of this process; a single polynomial operation takes microseconds
+
+
+def _on_tick(signum, frame):
+    if _wd['on'] and _wd['id'] == _wd['seen']:
+        _wd['hangs'] += 1
+        _wd['seen'] = -1
+        if _wd['hangs'] > 3:
+            raise Abort()
+        raise Hang(f'call still running after {WD_PERIOD:.0f}-{2 * WD_PERIOD:.0f} s of CPU time')
+    _wd['seen'] = _wd['id'] if _wd['on'] else -1
+
+
+def watchdog(on):
+    if on:
+        _wd.update(id=0, on=False, seen=-1, hangs=0)
+        signal.signal(signal.SIGVTALRM, _on_tick)
+        signal.setitimer(signal.ITIMER_VIRTUAL, WD_PERIOD, WD_PERIOD)
+    else:
+        signal.setitimer(signal.ITIMER_VIRTUAL, 0)
+
+
+def guarded(f):
+    """Run one call of the code under test under the hang guard."""
+    _wd['id'] += 1
+    _wd['on'] = True
+    try:
+        return f()
+    finally:
+        _wd['on'] = False
 
 
 # -- classes under test --------------------------------------------------------------------
@@ -116,7 +190,7 @@ class Ctx:
 
     def ev(self, f):
         try:
-            x = f()
+            x = guarded(f)
         except Exception as exc:
             return ('exc', type(exc).__name__)
         return self.canon(x)
@@ -368,6 +442,35 @@ def run_powmod(part, job):
 
 # -- triples -------------------------------------------------------------------------------
 
+def triple_row(part, cx, p, a, b, A, B, Cs, Cobj, AC_row, BCs, BpCs):
+    val = cx.val
+    _wd['id'] += 1      # hang guard: one (a, b) row of triples counts as one call
+    _wd['on'] = True
+    AB = A * B
+    ApB = A + B
+    ab = R.mul(a, b, p)
+    for k, c in enumerate(Cs):
+        C = Cobj[k]
+        ABC = AB * C
+        AC = AC_row[k]
+        bad = None
+        if ABC.value != (A * BCs[k]).value:
+            bad = 'mul-associative'
+        elif val(ABC) != R.mul(ab, c, p):
+            bad = 'mul-value'
+        elif (ApB + C).value != (A + BpCs[k]).value:
+            bad = 'add-associative'
+        elif (A * BpCs[k]).value != (AB + AC).value:
+            bad = 'left-distributive'
+        elif (ApB * C).value != (AC + BCs[k]).value:
+            bad = 'right-distributive'
+        if bad:
+            part.violation(f'C23:ring-law:{bad}', f'{bad} fails for a={R.terms(a)}, b={R.terms(b)}, c={R.terms(c)} over '
+                           f'GF({p}) [{cx.kind}]', dict(what='triple', kind=cx.kind, p=p, a=list(a), b=list(b), c=list(c)))
+    _wd['on'] = False
+    return len(Cs)
+
+
 def run_triples(part, job):
     """Ring laws on all triples (a, b, c) in A x B x C, implementation operators only, plus the value of
     (a b) c against the reference (operands of degree up to twice the bound)."""
@@ -377,7 +480,6 @@ def run_triples(part, job):
     As = dom(job['A'], p)[job['start']::job['step']]
     n = 0
     for cx in [Ctx(k, p) for k in kinds_for(p)]:
-        val = cx.val
         Aobj = [cx.make(a) for a in As]
         Cobj = [cx.make(c) for c in Cs]
         ACs = [[A * C for C in Cobj] for A in Aobj]
@@ -386,30 +488,12 @@ def run_triples(part, job):
             BCs = [B * C for C in Cobj]
             BpCs = [B + C for C in Cobj]
             for i, a in enumerate(As):
-                A = Aobj[i]
-                AB = A * B
-                ApB = A + B
-                ab = R.mul(a, b, p)
-                AC_row = ACs[i]
-                for k, c in enumerate(Cs):
-                    C = Cobj[k]
-                    n += 1
-                    ABC = AB * C
-                    AC = AC_row[k]
-                    bad = None
-                    if ABC.value != (A * BCs[k]).value:
-                        bad = 'mul-associative'
-                    elif val(ABC) != R.mul(ab, c, p):
-                        bad = 'mul-value'
-                    elif (ApB + C).value != (A + BpCs[k]).value:
-                        bad = 'add-associative'
-                    elif (A * BpCs[k]).value != (AB + AC).value:
-                        bad = 'left-distributive'
-                    elif (ApB * C).value != (AC + BCs[k]).value:
-                        bad = 'right-distributive'
-                    if bad:
-                        part.violation(f'C23:ring-law:{bad}', f'{bad} fails for a={R.terms(a)}, b={R.terms(b)}, c={R.terms(c)} over '
-                                       f'GF({p}) [{cx.kind}]', dict(what='triple', kind=cx.kind, p=p, a=list(a), b=list(b), c=list(c)))
+                try:
+                    n += triple_row(part, cx, p, a, b, Aobj[i], B, Cs, Cobj, ACs[i], BCs, BpCs)
+                except Exception as exc:
+                    _wd['on'] = False
+                    part.violation('C23:ring-law:exception', f'{type(exc).__name__}: {exc} in the ring laws for a={R.terms(a)}, b={R.terms(b)}, '
+                                   f'some c, over GF({p}) [{cx.kind}]', dict(what='triple', kind=cx.kind, p=p, a=list(a), b=list(b), c=[]))
             part.outcomes.add(('triple', cx.kind, len(b)))
     part.case(nontrivial=True, n=n)
     part.note('triples', {f'p={p}': n})
@@ -419,6 +503,15 @@ def replay_triple(part, case):
     p = case['p']
     cx = Ctx(case['kind'], p)
     a, b, c = tuple(case['a']), tuple(case['b']), tuple(case['c'])
+    if not case['c'] and 'exception' in case.get('note', 'exception'):
+        try:    # recorded for a whole row: re-run the row over the boundary alphabet
+            Cs = dom(('alpha', 3, 2), p)
+            Cobj = [cx.make(x) for x in Cs]
+            A, B = cx.make(a), cx.make(b)
+            triple_row(part, cx, p, a, b, A, B, Cs, Cobj, [A * C for C in Cobj], [B * C for C in Cobj], [B + C for C in Cobj])
+        except Exception as exc:
+            _wd['on'] = False
+            part.violation('C23:ring-law:exception', f'{type(exc).__name__}: {exc}', case)
     A, B, C = cx.make(a), cx.make(b), cx.make(c)
     val = cx.val
     laws = {
@@ -730,14 +823,32 @@ RUNNERS = dict(pairs=run_pairs, powmod=run_powmod, triples=run_triples, gcddef=r
 
 
 def run_job(job):
-    part = Part()
-    for sub in job.get('subs', [job]):
-        RUNNERS[sub['what']](part, sub)
+    part = CPart()
+    watchdog(True)
+    try:
+        for sub in job.get('subs', [job]):
+            RUNNERS[sub['what']](part, sub)
+    except Abort:
+        part.caps.append('job aborted: more than 3 calls of the code under test hung')
+    finally:
+        watchdog(False)
     return part
 
 
 def replay(case):
-    part = Part()
+    part = CPart()
+    watchdog(True)
+    try:
+        _replay(part, case)
+    except Abort:
+        pass
+    finally:
+        watchdog(False)
+    part.notes.pop('examples', None)
+    return part
+
+
+def _replay(part, case):
     p = case['p']
     kinds = kinds_for(p) if case['kind'] == 'both' else [case['kind']]
     a = tuple(case['a'])
